@@ -317,6 +317,8 @@ def _mono_case(rng, multi):
                 fr[rng.randrange(len(fr))] = rng.choice(out)
     c['fi'] = rng.randrange(nframes)
     c['api'] = 'get_frames' if (multi and rng.random() < 0.4) else 'get_frame'
+    if rng.random() < 0.3:
+        c['prior'] = rng.choice(['pres', 'pres', 'voi', 'dtype', 'yrange', 'frame'])
     if multi and r2 >= 0.36 and rng.random() < 0.3:
         # one stage per-frame (different for every frame), the next stage shared (or the reverse),
         # several frames fetched in ONE call: a transform built for one frame must not be reused
@@ -752,6 +754,30 @@ def run_impl(c):
             kw.update(dtype=np.dtype(c['dtype']), real_world_value_map_selector=_sel_arg(c['rsel'], False),
                       voi_transform_selector=_sel_arg(c['vsel'], True),
                       voi_output_range=(float(F(c['yrange'][0])), float(F(c['yrange'][1]))))
+            pr = c.get('prior')
+            if pr:
+                # history: the SAME object was just asked for the same frame(s) with one option different
+                # (a result must depend on the options of its own call only, whatever was cached before)
+                kw0 = dict(kw)
+                if pr == 'pres':
+                    kw0['apply_presentation_lut'] = not kw['apply_presentation_lut']
+                elif pr == 'voi':
+                    kw0['apply_voi_transform'] = False if kw['apply_voi_transform'] is not False else None
+                elif pr == 'dtype':
+                    kw0['dtype'] = np.dtype('float32' if c['dtype'] != 'float32' else 'float64')
+                elif pr == 'yrange':
+                    kw0['voi_output_range'] = (kw['voi_output_range'][0] - 1.0, kw['voi_output_range'][1] + 2.0)
+                elif pr == 'frame':
+                    kw0 = None
+                try:
+                    if kw0 is None:
+                        im.get_frame((c['fi'] + 1) % max(1, len(c['frames'])) + 1, **kw)
+                    elif c['api'] == 'get_frames':
+                        im.get_frames(**kw0)
+                    else:
+                        im.get_frame(c['fi'] + 1, **kw0)
+                except Exception:      # noqa  (the earlier call is not under test)
+                    pass
             if c['api'] == 'get_frames':
                 out = im.get_frames(**kw)
                 return [_canon(out[i], c['dtype']) for i in range(out.shape[0])]
